@@ -23,3 +23,14 @@ run R07-get-status-extract-sysdatetime C02 C04 C13
 run R08-sendto-inline-dispatch-switch C01 C03 C06 C07
 run R09-driver-extract-dial-control C09 C06
 run R10-listen-extract-event-to-status C10
+# S*: second set by an independent sub-agent, told to keep every existing function, closure and local name in place (S-README.txt)
+run S01-broadcastto-guard-clauses C09 C06 C03
+run S02-broadcast-receive-loop C09 C11
+run S03-broadcast-positive-conditions C11
+run S04-getdevice-single-lookup C02 C06
+run S05-gettimeprofile-segment-helper C02 C04
+run S06-putcard-validation-switch C07 C01
+run S07-date-unmarshal-wire-switch C02 C13 C05
+run S08-weekdays-shared-day-list C14 C04
+run S09-dispatchers-switch-commaok C05 C04
+run S10-codec-unmarshal-conditionals C03 C05 C18 C04 C02
